@@ -41,6 +41,7 @@ type Server struct {
 	KillReason string
 	closed     bool
 	wg         sync.WaitGroup
+	pongs      chan struct{}
 }
 
 // NewServer starts listening on a loopback port.
@@ -49,10 +50,30 @@ func NewServer() (*Server, error) {
 	if err != nil {
 		return nil, err
 	}
-	s := &Server{ln: ln, subs: map[string]string{}}
+	s := &Server{ln: ln, subs: map[string]string{}, pongs: make(chan struct{}, 64)}
 	s.wg.Add(1)
 	go s.accept()
 	return s, nil
+}
+
+// Barrier sends PING and waits for the client's PONG: the client's reader has
+// then taken in everything the server wrote before.
+func (s *Server) Barrier(d time.Duration) bool {
+	for {
+		select {
+		case <-s.pongs:
+			continue
+		default:
+		}
+		break
+	}
+	s.write("PING\r\n")
+	select {
+	case <-s.pongs:
+		return true
+	case <-time.After(d):
+		return false
+	}
 }
 
 // URL returns the nats:// URL of the server.
@@ -108,6 +129,10 @@ func (s *Server) serve(c net.Conn) {
 		case "PING":
 			s.write("PONG\r\n")
 		case "PONG":
+			select {
+			case s.pongs <- struct{}{}:
+			default:
+			}
 		case "SUB":
 			if len(args) > MaxControlLine {
 				s.kill(c, "Maximum Control Line Exceeded")
